@@ -204,6 +204,8 @@ def plan(tier, seed):
                                                               'Temperature Data Column Number': '2', 'Number of Housing Units': '12000',
                                                               'Constant Anchor Demand': '3' if div != '5' else '0', 'US Census Division': div}})
                         P.append({'fam': fam, 'changes': {'District Heating Demand Data Time Resolution': '2', 'District Heating Demand File Name': F.daily_demand_csv()}})
+                        # an hourly file that covers a leap year (8784 hours): the simulated year has 365 days on the demand and on the supply side
+                        P.append({'fam': fam, 'changes': {'District Heating Demand File Name': F.leap_demand_csv()}})
                     if tier == 'thorough' and tuple(s) == (5, 3, 2) and r in (3, 4):
                         inter = {kk: al[kk] for kk in ('Utilization Factor', 'End-Use Efficiency Factor',
                                                        'Injection Temperature', 'Ambient Temperature') if kk in al}
@@ -230,7 +232,8 @@ def run(tier, seed, budget=None):
         __import__('vf.checks.c02', fromlist=['x']), PID, tier, seed, budget,
         rule=('complete product end-use/plant pair (32) x reservoir model (4) x (lifetime, steps/yr, construction) shapes; '
               'on the deviation shapes every single-parameter deviation from the base over the listed alphabets plus '
-              'structural deviations (Ramey off, impedance hydraulics, redrilling); thorough adds all pairs of the '
+              'structural deviations (Ramey off, impedance hydraulics, redrilling); district heating also with the demand derived from heating '
+              'degree days (3 census divisions), a daily-resolution demand file and an hourly file covering a leap year (8784 hours); thorough adds all pairs of the '
               'interaction set. Non-trivial = accepted and HeatExtracted varies over time; distinct = digest of '
               '(plant class, reservoir class, end-use, shape, yearly extracted heat, first pumping powers)'),
         assumptions=['continuous parameters are explored only at the alphabet points',
